@@ -24,6 +24,11 @@ TWIN_OF = {   # function under contract -> twin harness name (native) / kani har
     'ChoiceHelper::new': ('ChoiceHelper::choice', 'twin_choice_helper'),
     'ParseState::first_n_chars': ('ParseState::first_n_chars', 'twin_first_n_chars'),
     'CacheEntries': ('CacheEntries', 'twin_cache_map'),
+    'IndentedTracer': ('IndentedTracer', None),
+    'IndentedTracer::print_trace_start': ('IndentedTracer', None),
+    'IndentedTracer::print_trace_result': ('IndentedTracer', None),
+    'IndentedTracer::print_informative': ('IndentedTracer', None),
+    'IndentedTracer::new': ('IndentedTracer', None),
 }
 BOUND = 'inputs: every UTF-8 string of at most 4 bytes (Kani) / strings over a 20-symbol alphabet up to 4 bytes (native); literals <= 3 bytes; every char'
 
@@ -70,6 +75,7 @@ def kani(ctx, fn, timeout=600):
     d = prepare(ctx)
     if d is None: return {'status': 'error', 'why': 'twin crate does not build'}
     native, harness = TWIN_OF[fn]
+    if harness is None: return {'status': 'error', 'why': 'no Kani harness for this twin (native only)'}
     env = dict(os.environ, CARGO_NET_OFFLINE='true')
     tdir = os.path.join(d, 'target-kani-' + harness)
     cmd = ['cargo', 'kani', '--harness', harness, '--target-dir', tdir, '-Z', 'concrete-playback', '--concrete-playback=print']
